@@ -3,6 +3,7 @@ import MdkVerif.Proofs.Store
 import MdkVerif.Proofs.Sort
 import MdkVerif.Proofs.Refine
 import MdkVerif.Props.C10Lru
+import MdkVerif.Props.C10Limits
 /-
   C10 — Memory and SQLite backends are observably the same store, and both agree with the plain
   reading of the storage contract.  The statements below are about the store model on EITHER backend
@@ -373,5 +374,13 @@ theorem rollback_keeps_messages_and_records (s : MemStore) (hb : s.u.backend = .
 
 /-- (d) … and with a restore collision beyond the capacity they do (corpus/C10lru/index_ghost_after_collision.trace) -/
 theorem index_full_false : ¬ C10Lru.index_full := C10Lru.index_full_false
+
+/-! ### 7. the documented limits (proved in Props/C10Limits.lean over Model/StoreLimits.lean): within both backends' limits the
+    limit-aware model IS the store model above; the calls on which the backends' validation differs are exactly those one
+    backend's literal limits accept and the other's refuse -/
+theorem within_limits_as_before : type_of% @C10Limits.within_limits_as_before := @C10Limits.within_limits_as_before
+theorem within_both_limits_as_before : type_of% @C10Limits.within_both_limits_as_before := @C10Limits.within_both_limits_as_before
+theorem limits_differ : type_of% @C10Limits.limits_differ := @C10Limits.limits_differ
+theorem name_256_mem_only : type_of% @C10Limits.name_256_mem_only := @C10Limits.name_256_mem_only
 
 end MdkVerif.Props.C10
